@@ -24,7 +24,10 @@
 use std::{cell::RefCell, panic::AssertUnwindSafe};
 
 use aranya_crypto::{
-    afc::{OpenKey, RawOpenKey, RawSealKey, SealKey, Seq},
+    afc::{OpenKey, RawOpenKey, RawSealKey, SealKey, Seq, UniChannel, UniOpenKey, UniSealKey, UniSecrets},
+    default::DefaultEngine,
+    policy::CmdId,
+    EncryptionKey,
     dangerous::spideroak_crypto::csprng::{Csprng, Random},
     default::DefaultCipherSuite,
     policy::LabelId,
@@ -110,6 +113,9 @@ struct ChanReal {
     seal_label: u64,
     open_label: u64,
     removed: bool,
+    /// the two ends hold the same key (always for `chan`; for `dchan` iff the peer derived its key
+    /// with the author's parameters)
+    keys_agree: bool,
     next_seq: u64,
     /// genuine messages of this channel: (wire, plaintext, seq)
     genuine: Vec<(Vec<u8>, Vec<u8>, u64)>,
@@ -126,6 +132,7 @@ enum Cmd {
     New,
     Consts,
     Chan { sl: u64, ol: u64, seed: u64, start: u64 },
+    DChan { sl: u64, ol: u64, seed: u64, start: u64, variant: String },
     Seal { c: usize, dstlen: usize, pt: Vec<u8> },
     SealIp { c: usize, pt: Vec<u8> },
     Open { c: usize, dstlen: usize, wire: Vec<u8> },
@@ -143,6 +150,7 @@ impl Cmd {
             ["new"] => Cmd::New,
             ["consts"] => Cmd::Consts,
             ["chan", a, b, s, q] => Cmd::Chan { sl: u(a)?, ol: u(b)?, seed: u(s)?, start: u(q)? },
+            ["dchan", a, b, s, q, v] if VARIANTS.contains(v) => Cmd::DChan { sl: u(a)?, ol: u(b)?, seed: u(s)?, start: u(q)?, variant: v.to_string() },
             ["seal", c, d, p, ..] => Cmd::Seal { c: z(c)?, dstlen: z(d)?, pt: unhex(p)? },
             ["sealip", c, p, ..] => Cmd::SealIp { c: z(c)?, pt: unhex(p)? },
             ["open", c, d, w] => Cmd::Open { c: z(c)?, dstlen: z(d)?, wire: unhex(w)? },
@@ -153,6 +161,8 @@ impl Cmd {
         })
     }
 }
+
+const VARIANTS: [&str; 8] = ["same", "label", "parent", "swap", "otherdev", "otherpeer", "otherauthor", "otherenc"];
 
 fn catch_once<R>(f: impl FnOnce() -> R) -> Result<R, String> {
     vh::catch(AssertUnwindSafe(f))
@@ -199,8 +209,56 @@ impl Sys {
                 let open_id = self.rx.state().add(Directed::OpenOnly { open }, label_id(*ol), DeviceId::default()).expect("add open");
                 let seal_ctx = self.tx.setup_seal_ctx(seal_id).expect("seal ctx");
                 let open_ctx = self.rx.setup_open_ctx(open_id).expect("open ctx");
-                self.chans.push(ChanReal { seal_ctx, open_ctx, seal_id, open_id, seal_label: *sl, open_label: *ol, removed: false, next_seq: *start, genuine: vec![] });
+                self.chans.push(ChanReal { seal_ctx, open_ctx, seal_id, open_id, seal_label: *sl, open_label: *ol, removed: false, keys_agree: true, next_seq: *start, genuine: vec![] });
                 rec.line(format!("chan {sl} {ol} {seed} {start}"), format!("ok {}", self.chans.len() - 1));
+                reply.ok = true;
+            }
+            Cmd::DChan { sl, ol, seed, start, variant } => {
+                // Both ends DERIVE their keys with the real aranya-crypto code: the author with
+                // `UniSecrets::new` + `UniSealKey::from_author_secret`, the peer with
+                // `UniOpenKey::from_peer_encap` on its own view of the channel (`variant` says how
+                // that view differs from the author's).
+                let rng = DetRng(RefCell::new(Rng::new(*seed)));
+                let (eng, _) = DefaultEngine::<_, CS>::from_entropy(DetRng(RefCell::new(Rng::new(seed ^ 0x5eed))));
+                let sk_a = EncryptionKey::<CS>::new(&rng);
+                let sk_p = EncryptionKey::<CS>::new(&rng);
+                let sk_t = EncryptionKey::<CS>::new(&rng);
+                let (pk_a, pk_p, pk_t) = (sk_a.public().expect("pk"), sk_p.public().expect("pk"), sk_t.public().expect("pk"));
+                let dev = |x: u8| DeviceId::from_bytes([x; 32]);
+                let (dev_a, dev_p, dev_t) = (dev(0xA), dev(0xB), dev(0xC));
+                let parent = |x: u8| CmdId::from_bytes([x; 32]);
+                let ch_a = UniChannel { parent_cmd_id: parent(1), our_sk: &sk_a, their_pk: &pk_p, seal_id: dev_a, open_id: dev_p, label_id: label_id(*sl) };
+                let secrets = UniSecrets::new(&eng, &ch_a).expect("UniSecrets::new");
+                let other = UniSecrets::new(&eng, &ch_a).expect("UniSecrets::new"); // another channel's encapsulation
+                let raw_seal: RawSealKey<CS> = UniSealKey::from_author_secret(&ch_a, secrets.author).expect("author key").into_raw_key();
+                let v = variant.as_str();
+                let ch_p = UniChannel {
+                    parent_cmd_id: if v == "parent" { parent(2) } else { parent(1) },
+                    our_sk: if v == "otherpeer" { &sk_t } else { &sk_p },
+                    their_pk: if v == "otherauthor" { &pk_t } else { &pk_a },
+                    seal_id: if v == "swap" { dev_p } else { dev_a },
+                    open_id: if v == "swap" { dev_a } else if v == "otherdev" { dev_t } else { dev_p },
+                    label_id: label_id(*ol),
+                };
+                let encap = if v == "otherenc" { other.peer } else { secrets.peer };
+                let raw_open: RawOpenKey<CS> = match UniOpenKey::from_peer_encap(&ch_p, encap) {
+                    Ok(k) => k.into_raw_key(),
+                    Err(e) => {
+                        rec.line(format!("dchan {sl} {ol} {seed} {start} {variant}"), format!("err Derive {e}"));
+                        return reply;
+                    }
+                };
+                let seal = SealKey::from_raw(&raw_seal, Seq::new(*start)).expect("seal key");
+                let open = OpenKey::from_raw(&raw_open).expect("open key");
+                let seal_id = self.tx.state().add(Directed::SealOnly { seal }, label_id(*sl), DeviceId::default()).expect("add seal");
+                let open_id = self.rx.state().add(Directed::OpenOnly { open }, label_id(*ol), DeviceId::default()).expect("add open");
+                let seal_ctx = self.tx.setup_seal_ctx(seal_id).expect("seal ctx");
+                let open_ctx = self.rx.setup_open_ctx(open_id).expect("open ctx");
+                // S-level expectation: the ends agree iff the peer's view is the author's
+                // (`label` with equal labels is the author's view)
+                let keys_agree = (v == "same" || v == "label") && sl == ol;
+                self.chans.push(ChanReal { seal_ctx, open_ctx, seal_id, open_id, seal_label: *sl, open_label: *ol, removed: false, keys_agree, next_seq: *start, genuine: vec![] });
+                rec.line(format!("dchan {sl} {ol} {seed} {start} {variant}"), format!("ok {}", self.chans.len() - 1));
                 reply.ok = true;
             }
             Cmd::Rm { c } => {
@@ -460,7 +518,7 @@ fn context(rec: &Recorder, req: &str) -> Vec<String> {
     let mut v: Vec<String> = rec
         .current_case_lines()
         .into_iter()
-        .filter(|l| l == "new" || l.starts_with("chan ") || l.starts_with("rm ") || l.starts_with("seal"))
+        .filter(|l| l == "new" || l.starts_with("chan ") || l.starts_with("dchan ") || l.starts_with("rm ") || l.starts_with("seal"))
         .collect();
     v.push(req.to_string());
     v
@@ -469,7 +527,7 @@ fn context(rec: &Recorder, req: &str) -> Vec<String> {
 /// S-level expectation: `Some((plaintext, seq))` iff `wire` is byte for byte a message sealed on
 /// this channel, the two sides agree on the label and the channel still exists
 fn expected(ch: &ChanReal, wire: &[u8]) -> Option<(Vec<u8>, u64)> {
-    if ch.removed || ch.seal_label != ch.open_label {
+    if ch.removed || ch.seal_label != ch.open_label || !ch.keys_agree {
         return None;
     }
     ch.genuine.iter().find(|g| g.0 == wire).map(|g| (g.1.clone(), g.2))
@@ -658,6 +716,33 @@ fn run_generated(args: &Args, rec: &mut Recorder) {
         fingerprint(g.rec);
     }
 
+    // D2. channels whose two ends DERIVE their keys (real UniSecrets / UniSealKey / UniOpenKey):
+    // the peer's view equal to the author's, or differing in exactly one parameter
+    let rounds = if big { 12 } else { 3 };
+    for round in 0..rounds {
+        for v in VARIANTS {
+            g.begin("derived-channel");
+            let sl = 10 + g.rng.below(5);
+            let ol = if v == "label" { sl + 1 + g.rng.below(3) } else { sl };
+            let start = if round % 3 == 2 { g.rng.below(1000) } else { 0 };
+            let seed = g.rng.next_u64() >> 1;
+            g.x(Cmd::DChan { sl, ol, seed, start, variant: v.to_string() });
+            let c = g.sys.chans.len() - 1;
+            g.rec.count(&format!("dchan:{v}"));
+            for k in 0..4usize {
+                let len = [0usize, 1, 17, 200][k] + g.rng.below(3) as usize;
+                let pt = g.rng.bytes(len);
+                let w = g.seal(c, pt, k % 2 == 0);
+                g.open_both(c, &w, if v == "same" { "derived-genuine" } else { "derived-mismatch" });
+                if k == 2 {
+                    let cut = g.rng.below(w.len() as u64) as usize;
+                    g.open_both(c, &w[..cut], "truncated");
+                }
+            }
+            fingerprint(g.rec);
+        }
+    }
+
     // E. random byte strings, every length up to and beyond header + tag
     g.begin("random-strings");
     let c = g.chan(8, 8, 0);
@@ -723,7 +808,14 @@ fn run_generated(args: &Args, rec: &mut Recorder) {
             let ol = if g.rng.chance(1, 8) { l + 1 } else { l };
             let start = if g.rng.chance(1, 10) { u64::MAX - g.rng.range(1, 4) } else { g.rng.below(3) };
             let _ = i;
-            g.chan(l, ol, start);
+            if g.rng.chance(1, 3) {
+                let v = *g.rng.pick(&VARIANTS);
+                let seed = g.rng.next_u64() >> 1;
+                g.x(Cmd::DChan { sl: l, ol, seed, start, variant: v.to_string() });
+                g.rec.count(&format!("dchan:{v}"));
+            } else {
+                g.chan(l, ol, start);
+            }
         }
         let mut wires: Vec<(usize, Vec<u8>)> = vec![];
         let steps = g.rng.range(3, 25);
